@@ -223,7 +223,7 @@ def c15(run):
                  name=f"MC_Huffman N={n} MaxCount={mc} (model-level capacity; the code's counters are 16 bits wide)")
     # pipeline V at the real size: histories of the 314-symbol tree up to and across the 65221-update capacity
     exe = run.harness("huff_rec")
-    pats = [("single", 65300), ("random", 65400), ("fib", 62000)] + ([("roundrobin", 65300), ("sawtooth", 65300), ("random", 30000)] if run.thorough else [])
+    pats = [("single", 65300), ("random", 65400), ("fib", 62000), ("lead", 36000)] + ([("roundrobin", 65300), ("sawtooth", 65300), ("random", 30000)] if run.thorough else [])
     from concurrent.futures import ThreadPoolExecutor
 
     def one(ps):
